@@ -230,20 +230,29 @@ def checkStepB (style : Style) (limit : Int) (s : Step) : Option Err :=
         | .blueGreen => if e ∨ w < 0 ∨ w > 100 then some .trafficBG else none
         | _ => if e ∨ w ≤ 0 ∨ w > 100 then some .trafficCanary else none
 
-/-- second loop of `validateRolloutSpecCanarySteps`: neighbours of the same type only -/
-def checkNonDecrB : List Step → Option Err
-  | p :: c :: rest =>
-    if isPctType p.replicas != isPctType c.replicas then checkNonDecrB (c :: rest)
-    else if (scaled100 c.replicas).1 < (scaled100 p.replicas).1 then some .nonDecr
-    else checkNonDecrB (c :: rest)
-  | _ => none
+/-- `lastOfType map[bool]int`: latest value seen among the integer (`false`) / percentage (`true`) steps -/
+abbrev Last := Bool → Option Int
+
+def Last.empty : Last := fun _ => none
+def Last.set (l : Last) (t : Bool) (v : Int) : Last := fun b => if b = t then some v else l b
+
+/-- second loop of `validateRolloutSpecCanarySteps`: every step against the latest previous
+    step of the same type (integer / percentage) -/
+def checkNonDecrB (last : Last) : List Step → Option Err
+  | [] => none
+  | c :: rest =>
+    let t := isPctType c.replicas
+    let v := (scaled100 c.replicas).1
+    match last t with
+    | some pv => if v < pv then some .nonDecr else checkNonDecrB (last.set t v) rest
+    | none => checkNonDecrB (last.set t v) rest
 
 /-- `validateRolloutSpecCanarySteps` -/
 def validateStepsB (style : Style) (limit : Int) (steps : List Step) : List Err :=
   if steps.length = 0 then [.stepsEmpty] else
   match firstErr (checkStepB style limit) steps with
   | some e => [e]
-  | none => match checkNonDecrB steps with
+  | none => match checkNonDecrB Last.empty steps with
     | some e => [e]
     | none => []
 
@@ -259,10 +268,11 @@ def validateStrategyB (style : Style) (limit : Int) (r : RolloutB) : List Err :=
   | _, some bg => validateStratB style limit bg
   | some c, none => validateStratB style limit c
 
-/-- `IsSameWorkloadRefGVKName` / `IsSameV1alpha1WorkloadRefGVKName`: nil-safe `reflect.DeepEqual` -/
+/-- `IsSameWorkloadRefGVKName` / `IsSameV1alpha1WorkloadRefGVKName` (`isSameGroupKindName`):
+    nil-safe; same API group, kind and name -/
 def sameRef (a b : Option Ref) : Bool :=
   match a, b with
-  | some x, some y => x = y
+  | some x, some y => groupOf x.apiVersion = groupOf y.apiVersion ∧ x.kind = y.kind ∧ x.name = y.name
   | _, _ => false
 
 /-- `validateRolloutConflict` (both versions): list the namespace, skip the same name,
@@ -295,6 +305,7 @@ def validateUpdateB (store : List Stored) (limit : Int) (old new : RolloutB) : O
     if errs ≠ [] then return errs
     if immutablePhase latest.phase then
       if old.ref ≠ new.ref then return [.immutRef]
+      if old.blueGreen.isNone ∧ old.canary.isNone then return [.immutStyle]   -- IsEmptyRelease
       let os ← stratOf old.canary old.blueGreen
       let nw ← stratOf new.canary new.blueGreen
       if os.trs ≠ nw.trs then return [.immutTR]
@@ -315,7 +326,7 @@ def contextA (r : RolloutA) : Option (Option Style) :=
     let a := r.anno.toLower
     if a = "" ∨ a = "canary" then
       match r.ref with
-      | none => none   -- PANIC: targetRef.APIVersion on a nil WorkloadRef
+      | none => some (some .partition)   -- `targetRef != nil &&` guard
       | some ref => if isNativeDeployment ref then some (some .canary) else some (some .partition)
     else some (some .partition)
 
@@ -342,7 +353,10 @@ def checkStepA (c : Option Style) (limit : Int) (s : Step) : Option (Option Err)
     | none => none   -- PANIC c.style
     | some style =>
       if style = .partition ∧ isPctType (some r) ∧ v > limit ∧ (s.mts.isSome ∨ s.weight.isSome)
-      then some (some .partLimit) else some none
+      then some (some .partLimit)
+      else match s.weight with
+        | some w => if w ≤ 0 ∨ w > 100 then some (some .weightBad) else some none
+        | none => some none
   | none =>
     match c with
     | none => none   -- PANIC c.style
@@ -368,19 +382,25 @@ def cmpValA (s : Step) : Option Int :=
   | some r => some (scaled r 100 true).1
   | none => s.weight   -- PANIC when nil
 
-/-- second loop of `validateV1alpha1RolloutSpecCanarySteps` -/
-def checkNonDecrA (isTraffic : Bool) : List Step → Option (Option Err)
-  | p :: c :: rest =>
-    let weightDecr : Bool := match c.weight, p.weight with
-      | some cw, some pw => isTraffic && decide (cw < pw)
-      | _, _ => false
+/-- second loop of `validateV1alpha1RolloutSpecCanarySteps`: weights of neighbouring steps, then
+    every step against the latest previous step of the same type -/
+def checkNonDecrA (isTraffic : Bool) (prev : Option Step) (last : Last) : List Step → Option (Option Err)
+  | [] => some none
+  | c :: rest =>
+    let weightDecr : Bool := match prev with
+      | some p => (match c.weight, p.weight with
+        | some cw, some pw => isTraffic && decide (cw < pw)
+        | _, _ => false)
+      | none => false
     if weightDecr then some (some .weightDecr)
-    else if isPctType p.replicas != isPctType c.replicas then checkNonDecrA isTraffic (c :: rest)
     else
-      match cmpValA p, cmpValA c with
-      | some pv, some cv => if cv < pv then some (some .nonDecr) else checkNonDecrA isTraffic (c :: rest)
-      | _, _ => none
-  | _ => some none
+      match cmpValA c with
+      | none => none   -- PANIC *curr.Weight
+      | some v =>
+        let t := isPctType c.replicas
+        match last t with
+        | some pv => if v < pv then some (some .nonDecr) else checkNonDecrA isTraffic (some c) (last.set t v) rest
+        | none => checkNonDecrA isTraffic (some c) (last.set t v) rest
 
 /-- `validateV1alpha1RolloutSpecCanarySteps` -/
 def validateStepsA (c : Option Style) (limit : Int) (steps : List Step) (isTraffic : Bool) :
@@ -389,7 +409,7 @@ def validateStepsA (c : Option Style) (limit : Int) (steps : List Step) (isTraff
   match firstErrP (checkStepA c limit) steps with
   | none => none
   | some (some e) => some [e]
-  | some none => match checkNonDecrA isTraffic steps with
+  | some none => match checkNonDecrA isTraffic none Last.empty steps with
     | none => none
     | some (some e) => some [e]
     | some none => some []
@@ -418,11 +438,14 @@ def validateUpdateA (store : List Stored) (limit : Int) (old new : RolloutA) : O
     if errs ≠ [] then return errs
     if immutablePhase latest.phase then
       if old.ref ≠ new.ref then return [.immutRef]
-      let oc ← old.canary   -- PANIC oldObj.Spec.Strategy.Canary.TrafficRoutings
-      let nc ← new.canary
-      if oc.trs ≠ nc.trs then return [.immutTR]
-      if old.anno.toLower ≠ new.anno.toLower then return [.immutStyle]
-      return []
+      match old.canary with
+      | none => return [.immutStyle]   -- `oldObj.Spec.Strategy.Canary == nil` guard
+      | some oc =>
+        let nc ← new.canary   -- PANIC if nil (unreachable: validateA passed)
+        if oc.trs ≠ nc.trs then return [.immutTR]
+        if old.anno.toLower ≠ new.anno.toLower then return [.immutStyle]
+        if oc.steps.length ≠ nc.steps.length then return [.immutSteps]
+        return []
     else return []
 
 /-! ## Handle -/
